@@ -107,7 +107,8 @@ def describe_pair(v, w):
     if t == "func":
         if v[1] != w[1]:
             return "func-template", t
-        for name, lab in (("k", {"closure": "func-closure", "const": "func-body"}.get(v[1])),
+        for name, lab in (("k", {"closure": "func-closure", "const": "func-body", "stmt": "func-body-stmt",
+                                  "stmt1": "func-body-first-stmt", "mls": "func-body"}.get(v[1])),
                           ("g", "func-global" if v[1] == "global" else None), ("d", "func-default")):
             if lab and v[2].get(name, 0) != w[2].get(name, 0):
                 return lab, t
